@@ -553,7 +553,7 @@ SPEC = {
             'U+2828) and astral characters, any page of generated page trees with 1..40 pages, zero-page parents fixed by '
             'adjust_zero_pages, orphans; malformed stream: duplicate titles, non-page targets, no adjust, stale max_id, broken '
             'Root, chains of height 256/257 (read back) and 258+ (known finding), wide shallow forests (255..600 chapters that each have '
-            'sections on ONE sibling list, 200 chapters + 100 sections with subsections under the last, depth 2..4, 500..1200 bookmarks, '
+            'sections on ONE sibling list, 200 chapters + 100 sections with subsections under the last, depth 2..4, 500..1200 bookmarks (thorough tier: 120 more with 100..700 parents and four with 3000..5000 bookmarks), '
             'some with zero-page parents; in memory and after save_to + load_mem), plus hand-built outlines exercising every branch of the '
             'reader incl. cyclic First/Next links (reference budget / depth limit); non-trivial = at least 2 bookmarks or a '
             'hand-built outline; distinct = distinct case text',
